@@ -384,8 +384,38 @@ fn write_replay(ctx: &Ctx, group: &str, fail: &Fail, case: &Value) -> String {
     path.display().to_string()
 }
 
+thread_local! {
+    static CURRENT_GROUP: RefCell<String> = const { RefCell::new(String::new()) };
+}
+static JOURNAL: std::sync::OnceLock<PathBuf> = std::sync::OnceLock::new();
+
+/// Names the sub-check the following cases belong to (used by the crash journal).
+pub fn set_group(group: &str) {
+    CURRENT_GROUP.with(|g| *g.borrow_mut() = group.to_string());
+}
+
+/// Turns on the crash journal: every case is written to `path` before it
+/// runs, so that a case that kills the process (abort, segfault) can be
+/// recovered by the parent.  Slow; only used when re-running a shard that crashed.
+pub fn enable_journal(path: PathBuf) {
+    let _ = JOURNAL.set(path);
+}
+
+#[derive(Serialize, Deserialize)]
+pub struct JournalEntry {
+    pub group: String,
+    pub case: Value,
+}
+
 /// Runs `check` on `case`, turning a panic into a failure.
-pub fn guarded<C>(case: &C, check: &impl Fn(&C) -> CaseResult) -> CaseResult {
+pub fn guarded<C: Serialize>(case: &C, check: &impl Fn(&C) -> CaseResult) -> CaseResult {
+    if let Some(path) = JOURNAL.get() {
+        let entry = JournalEntry {
+            group: CURRENT_GROUP.with(|g| g.borrow().clone()),
+            case: serde_json::to_value(case).unwrap_or(Value::Null),
+        };
+        let _ = std::fs::write(path, serde_json::to_vec(&entry).unwrap_or_default());
+    }
     match panics::catch(|| check(case)) {
         Ok(r) => r,
         Err(p) => Err(Fail::new(format!("panic:{}", p.signature()), format!("panicked: {}", p.describe()))),
@@ -423,6 +453,7 @@ pub fn drive<C, S>(
     C: std::fmt::Debug + Clone + Serialize,
     S: Strategy<Value = C>,
 {
+    set_group(group);
     let config = Config {
         cases,
         failure_persistence: None,
@@ -491,6 +522,7 @@ pub fn enumerate<C>(
 where
     C: Serialize,
 {
+    set_group(group);
     for (index, case) in items.enumerate() {
         if !ctx.owns(index as u64) {
             continue;
@@ -513,6 +545,7 @@ where
 
 /// Runs one explicit case (regression corpus, directed cases).
 pub fn one<C: Serialize>(ctx: &Ctx, rep: &mut Report, group: &str, case: &C, check: impl Fn(&C) -> CaseResult) {
+    set_group(group);
     match guarded(case, &check) {
         Ok(outcome) => rep.record_pass(group, case, &outcome),
         Err(fail) => {
@@ -576,10 +609,8 @@ pub fn run_regress(ctx: &Ctx, rep: &mut Report, replay: fn(&Ctx, &str, &Value) -
             rep.infra_errors.push(format!("unreadable regression file {}", file.display()));
             continue;
         };
-        let r = match panics::catch(|| replay(ctx, &rf.group, &rf.case)) {
-            Ok(r) => r,
-            Err(p) => Err(Fail::new(format!("panic:{}", p.signature()), p.describe())),
-        };
+        set_group(&rf.group);
+        let r = guarded(&rf.case, &|c: &Value| replay(ctx, &rf.group, c));
         match r {
             Ok(outcome) => rep.record_pass("regress", &rf.case, &outcome),
             Err(fail) if fail.sig == "replay:unparseable" => rep.infra_errors.push(format!("{}: {}", file.display(), fail.msg)),
@@ -598,4 +629,22 @@ pub fn run_regress(ctx: &Ctx, rep: &mut Report, replay: fn(&Ctx, &str, &Value) -
             }
         }
     }
+}
+
+/// Records a case that killed its worker process (recovered from the crash journal).
+pub fn record_crash(ctx: &Ctx, rep: &mut Report, entry: JournalEntry, how: &str) {
+    let fail = Fail::new(
+        format!("crash:{how}:{}", entry.group),
+        format!("the worker process was killed ({how}) while running this case: memory-safety check, abort or stack overflow in the code under test"),
+    );
+    if rep.found.iter().any(|f| f.sig == fail.sig) {
+        return;
+    }
+    let replay = write_replay(ctx, &entry.group, &fail, &entry.case);
+    rep.found.push(Found {
+        sig: fail.sig,
+        msg: fail.msg,
+        replay,
+        known: false,
+    });
 }
